@@ -7,6 +7,7 @@ HERE="$(cd "$(dirname "$0")" && pwd)"
 for d in /verif/seeded/*/; do
   id="$(basename "$d")"; prop="$(python3 -c "import json;m=json.load(open('$d/meta.json'));print(m.get('check_with') or m['breaks_property'])")"
   if python3 -c "import json,sys;sys.exit(0 if json.load(open('$d/meta.json')).get('not_pursued') else 1)"; then echo "$id (breaks $prop): not pursued (see meta.json)"; continue; fi
+  if [ "$TIER" = quick ] && python3 -c "import json,sys;sys.exit(0 if json.load(open('$d/meta.json')).get('thorough_only') else 1)"; then echo "$id (breaks $prop): reached by the thorough tier only (see meta.json)"; continue; fi
   "$HERE/scratch.sh" reset "$S"
   # patches were written against the /repo HEAD of their time (meta.json base_commit); later fix commits
   # may touch neighbouring lines: fall back to a 3-way apply
